@@ -22,14 +22,16 @@ A failing history is minimised (greedy deletion of steps, history and final-repo
 the failure key names the witness CLASS:
 
   C03:times:stale-memo:<last change>:<after-earlier-query | memo-filled-during-construction>
-        a reported time is wrong and right again once both memos are cleared; <last change> = the last mutation -- or listing that
-        handed relation links down -- after the memo was first filled (by a query, or by apply_modifiers itself: extend evaluates end
+        a reported time is wrong and right again once both memos are cleared; <last change> in {set_registry_at, override_enter,
+        override_leave, apply_modifiers, flatten, add (operation / sub-circuit / into a nested sub-circuit), listing} = the last mutation
+        -- or listing that handed relation links down -- after the memo was first filled (by a query, or by apply_modifiers itself: extend evaluates end
         times); "<change>>plot_circuit" / "no-mutation:after-query=<q>" if the minimal history needs a query after the last change
         (never the case on the unchanged code for plot_circuit, which clears the memos)
   C03:times(start-fits-the-previous-own-duration):stale-memo:...   the operation's own duration changed (the memo is keyed on it)
   C03:<times|duration>:differs-with-fresh-memos:after=<last mutation>   wrong although both memos were cleared right before the read
   C03:<group>:changes-without-mutation:[<queries in between>]           same query, no mutation in between, different answers
   C03:<group>:depends-on-earlier-queries:<queries>><last mutation>      final report differs from the mutations-only replay
+        (<queries>: "time-or-listing-query" = queries that read times, i.e. fill the memo, or that handed links down; others by name)
   (group: listing | times | acquisition_indices | to_stim | copy; "listing" as a query name = a query that handed links down)
 
 See bounded/README.md for the command line and the output format.
@@ -176,17 +178,53 @@ def valid(steps, n_base):
 # ------------------------------------------------------------------------------------------------
 # Own evaluator: relation equations over the link fields, durations from the harness' own model
 # ------------------------------------------------------------------------------------------------
+_SPAN = [None]
+
+
+def span_definition():
+    """Which span does a composite's `duration` report?  'all' = latest end - earliest start over ALL contained operations (property
+    C04's statement), 'legacy' = relation-leaf ends - first-level starts (the code before C04 was repaired).  Which one is RIGHT is C04's
+    business; C03 only needs the times to be a function of structure and duration settings, so the oracle follows what a canary shows
+    (fresh memos; a barrier JOINED_START to a longer first operation is neither first-level nor the latest-ending)."""
+    if _SPAN[0] is None:
+        lib = base.L()
+        common.clear_caches()
+        with warnings.catch_warnings():
+            warnings.simplefilter("ignore")
+            c = lib.DeclarativeCircuit()
+            a = c.add(lib.co.Wait(0, duration_strategy=lib.rd.FixedDurationStrategy(duration=1.0)))
+            b = lib.co.Barrier([0, 1])
+            b.relation_link = lib.RelationLink(a, lib.RelationType.JOINED_START)
+            c.add(b)
+            d = c.duration
+        common.clear_caches()
+        _SPAN[0] = "all" if close(d, 1.0) else "legacy" if close(d, 0.5) else f"unknown({d})"
+    return _SPAN[0]
+
+
 class Ev(base.Evaluator):
     def __init__(self, table, regmodel):
         super().__init__(table)
         self.R = regmodel
+        self.span = span_definition()
 
     def dur(self, o):
         if not base.is_composite(o):
             s = getattr(o, "duration_strategy", None)
             if type(s).__name__ == "RegistryDurationStrategy":
                 return float(self.R.get(s.registry_key, 0.0))   # registry default 0.0 (documented default)
-        return super().dur(o)
+            return super().dur(o)
+        if self.span == "legacy":
+            return super().dur(o)
+        k = id(o)
+        if k not in self._d:
+            nodes = base.composite_nodes(o)[2]
+            v = 0.0
+            if nodes:
+                first = min(self.start(n.operation) for n in nodes)
+                v = max(0.0, max(self.end(n.operation) for n in nodes) - first)
+            self._d[k] = v
+        return self._d[k]
 
 
 # ------------------------------------------------------------------------------------------------
@@ -798,6 +836,10 @@ def minimise(program, steps, finding, budget):
     return cur
 
 
+# the three ways of adding are one class of "last change" (the witness says which)
+CAUSE_NAME = {"add": "add", "nest_sub": "add", "add_to_sub": "add"}
+
+
 def oracle_cause(before, rec):
     """witness class of a wrong time: the last of the mutations -- and of the listings that handed relation links down -- that came after
     the memo was first filled (by a query or, with multi-links, by apply_modifiers itself), and whether a query came before it"""
@@ -805,7 +847,7 @@ def oracle_cause(before, rec):
     for st in before:
         if "o" in st:
             if filled and rec.get(st["sid"], ({}, {}))[0].get("_handed_down"):
-                tokens.append("listing" + ("(sub-circuit-before-nesting)" if st.get("on") is not None else ""))
+                tokens.append("listing")
                 flag = queried
                 plot_after = False
             if st["o"] != "operations":
@@ -820,7 +862,7 @@ def oracle_cause(before, rec):
             flag = queried
             plot_after = False
         elif filled:
-            tokens.append(MUT_NAME[st["m"]])
+            tokens.append(CAUSE_NAME.get(st["m"], MUT_NAME[st["m"]]))
             flag = queried
             plot_after = False
     if tokens and plot_after:
@@ -884,13 +926,11 @@ def classify(program, steps, finding, budget):
     else:
         j = order.index(sids[0])
         # class: the queries the difference needs, and the last mutation before the differing report (other mutations: witness, not class)
-        # "listing" = a query that handed links down / replaced link objects; with "+memo-filling-query" if another query is needed too
-        names = {nm(st) if nm(st) == "listing" or is_history_obs(st) is False else nm(st) for st in smin[:j] if "o" in st}
-        plain = sorted(n for n in names if n != "listing")
-        if "listing" in names:
-            names = ["listing"] + (["memo-filling-query"] if plain else [])
-        else:
-            names = plain
+        # queries that read times (they fill the memo) or that handed links down / replaced link objects ("listing") are one class of
+        # earlier query; any other query the difference needs keeps its name
+        timeq = {READ_NAME["listed_times"], READ_NAME["held_times"], READ_NAME["plot_nc"], "duration", "listing"}
+        names = {("time-or-listing-query" if nm(st) in timeq else nm(st)) for st in smin[:j] if "o" in st}
+        names = sorted(names)
         muts = [MUT_NAME[st["m"]] for st in smin[:j] if "m" in st and st["m"] != "make_sub"]
         cause = ">".join(["+".join(names)] + muts[-1:])
         key = f"{PROP}:{f}:depends-on-earlier-queries:{cause}"
@@ -1476,6 +1516,7 @@ def run_job(job):
 def _init_worker(deadline):
     _DEADLINE[0] = deadline
     base.L()
+    span_definition()
     warnings.simplefilter("ignore")
 
 
@@ -1533,8 +1574,10 @@ def main(argv=None):
     pr = total.probe
     res.probes = [
         {"assumption": f"with fresh memos (caches cleared after the run) the library's report equals the own evaluator: {pr['fresh_checked']} end states, "
-                       f"{pr['fresh_mismatch']} mismatches (composite duration is evaluated with the library's depth-1 / leaf definition; C04 is judged elsewhere)",
-         "ok": pr["fresh_mismatch"] == 0},
+                       f"{pr['fresh_mismatch']} mismatches", "ok": pr["fresh_mismatch"] == 0},
+        {"assumption": f"a composite's duration spans '{span_definition()}' ('all' = latest end - earliest start over all contained operations, 'legacy' = "
+                       f"relation-leaf ends - first-level starts), established on a canary circuit; the oracle follows it, which of the two is right is "
+                       f"judged by C04, not here", "ok": span_definition() in ("all", "legacy")},
         {"assumption": f"observations really reached the library: {pr['plots']} drawings (Agg); observations that raised are recorded and compared as such: "
                        f"{pr['obs_raises']}", "ok": True},
         {"assumption": f"{total.failing_histories} of {total.histories} histories show at least one finding; findings beyond the first 6 of one history are not "
@@ -1542,6 +1585,18 @@ def main(argv=None):
         {"assumption": "sub-circuits are nested through DeclarativeCircuit.add (which copies them); relations of operations added by the history point to "
                        "top-level items; times of 'held references' are read from the objects add returned, never through private fields", "ok": True},
     ]
+    # named witness of the known defect "plain build -> apply_modifiers -> read" on the library's repetition-code circuit
+    try:
+        lp = {"lib": "repcode_simplified", "states": "01", "cycles": 5}
+        ls = with_sids([M("apply_modifiers")])
+        lr = run(lp, ls)
+        lbad = lr[FIRST_TIMES][1].get("times")
+        res.probes.append({"assumption": "informational: construct_repetition_code_circuit_simplified(initial_state 01, qec_cycles=5) -> apply_modifiers() -> "
+                                         "for o in circuit.operations: o.start_time (fresh process state, no other query): " +
+                                         (f"WRONG time reported: {json.dumps(lbad)} (class C03:times:stale-memo:listing:memo-filled-during-construction)"
+                                          if lbad else "all reported times agree with the relation equations"), "ok": True})
+    except Exception as e:  # noqa
+        res.probes.append({"assumption": f"informational: library witness could not be evaluated ({type(e).__name__})", "ok": True})
     for f in total.failures.values():
         f.pop("_size", None)
     res.failures = total.failures
